@@ -266,6 +266,22 @@ def h_internal_groupinfo_error(ctx):
         raised = e
     obs.append(("an error reply (any id) to the group-info request runs no continuation: nothing is sent, nothing raises (%s)" % (type(raised).__name__ if raised else None),
                 raised is None and len(bottom.down) == n0))
+    # the error reply with the request's id ANSWERED the request: it does not surface as an ordinary stanza, and a later (replayed /
+    # second) reply with that id finds no request any more -- the success continuation does not run on it
+    sent_id = hooks.dict_get(iqs[0].attributes, "id")
+    match = core.eq(rid, sent_id)
+    obs.append(("the matching error reply is consumed by the registry (does not reach the application as an ordinary stanza)", z3.Implies(match, z3.BoolVal(len(app.other) == 0)) if not isinstance(match, bool) else (len(app.other) == 0 or not match)))
+    matched = match if isinstance(match, bool) else bool(core.SymBool(match))
+    if matched:
+        n1 = len(bottom.down)
+        try:
+            bottom.inject(_reply(sent_id, True, lambda: [SC.N()("group", {"subject": "s", "creation": "1400000000", "creator": J, "s_t": "1400000001", "id": "1-2", "s_o": J},
+                                                                [SC.N()("participant", {"jid": J, "type": "admin"}), SC.N()("participant", {"jid": J2})])]))
+        except AttributeError:
+            pass              # a continuation that ran got as far as the stand-in manager: counted below through what it sent / asked for
+        later = bottom.down[n1:]
+        ran = [c for c in mgr.calls if c[0] in ("group_create_skmsg", "group_encrypt")]
+        obs.append(("a second reply with the id of the already answered request runs no continuation (%d stanzas sent, %d encryption calls)" % (len(later), len(ran)), len(later) == 0 and not ran))
     return obs
 
 
